@@ -1,5 +1,12 @@
 (** C06 - A waiting receiver is always woken, and no peer is starved.  Property theorems only. *)
 From ZV Require Import Base.Bytes Model.FairQueue Proofs.FairQueueProofs.
+From ZV Require Gen.Src.
+
+(** structure re-read from the source on every run: a stream waker records that it has fired, and the poll loop
+    returns Pending instead of looping when the waker of the stream poll in progress has fired (the [QYield] case) *)
+Theorem C06_gen_structure : Gen.Src.fq_waker_sets_woken = 1 /\ Gen.Src.fq_pending_checks_woken = 1.
+Proof. split; reflexivity. Qed.
+Print Assumptions C06_gen_structure.
 
 (** every stream in the map that is not being polled has a claim: an event in the ready heap or a
     kept waker that will push one *)
@@ -19,6 +26,16 @@ Theorem C06_no_lost_wakeup : forall q, reachable q -> f_parked q = true -> f_wok
   forall k, In k (f_streams q) -> src_ready (the_src q k) = true -> s_reg (the_src q k) <> None.
 Proof. exact fq_no_lost_wakeup. Qed.
 Print Assumptions C06_no_lost_wakeup.
+
+(** a stream poll that wakes the waker it is polled with and returns Pending (a yielding stream) makes
+    poll_next return Pending at once, with the stream's event queued, the stream back in the map and the
+    receiver already woken: no spinning, no lost wake-up *)
+Theorem C06_yield_returns_pending : forall q ev q1 q2 es,
+  f_pc q = Out ev -> step q LR2Y = (q1, []) -> step q1 LR3 = (q2, es) ->
+  es = [EPending] /\ f_pc q2 = Idle /\ f_parked q2 = true /\ In ev (f_heap q2) /\ In (snd ev) (f_streams q2) /\
+  (f_rwaker q = true -> f_woken q2 = true).
+Proof. exact yield_returns_pending. Qed.
+Print Assumptions C06_yield_returns_pending.
 
 (** ... and when that waker fires, or a new connection is inserted, the receiver is woken *)
 Theorem C06_wake_wakes_receiver : forall q k c, reachable q -> f_parked q = true -> f_woken q = false ->
